@@ -740,6 +740,12 @@ class FuelHandler:
             )
             return
 
+        if a1 is a2:
+            # nothing to exchange; _transferStationaryBlocks would take a stationary block out of
+            # the assembly and fail to put it back
+            runLog.warning(f"Cannot swap {a1} with itself. Skipping swap")
+            return
+
         runLog.extra("Swapping {} with {}.".format(a1, a2))
         # add assemblies into the moved location
         for a in [a1, a2]:
